@@ -160,6 +160,49 @@ def r7_1(ctx, rc):
                     rc.ok({'sink': key}, key=key)
     if n_sinks < 4:
         raise AnalysisError('only %d path sinks found' % n_sinks)
+    # nothing whose answer depends on ambient state (working directory,
+    # file system) is memoised across calls
+    MEMO = {'lru_cache', 'cache', 'cached_property', 'memoize', 'memoized'}
+    AMBIENT = ('os.path.abspath', 'os.getcwd', 'os.path.realpath',
+               'os.path.expanduser', 'os.stat', 'os.listdir',
+               'os.path.isfile', 'os.path.isdir', 'os.path.exists',
+               'os.path.getsize', 'os.path.getmtime')
+    n_memo = 0
+    for f in prog.funcs.values():
+        decs = {ast.unparse(d).split('(')[0].split('.')[-1]
+                for d in f.node.decorator_list}
+        if not (decs & MEMO):
+            continue
+        n_memo += 1
+        prims = set()
+        todo, seenf = [f], set()
+        while todo:
+            f0 = todo.pop()
+            if f0.qualname in seenf:
+                continue
+            seenf.add(f0.qualname)
+            for c in prog.calls_in(f0):
+                for g in prog.resolve_call(c, f0):
+                    if isinstance(g, Func):
+                        todo.append(g)
+                    else:
+                        prims.add(g)
+        amb = sorted(p for p in prims if p in AMBIENT)
+        key = 'memoised function ' + f.qualname
+        if amb:
+            rc.violation(
+                'memoised-ambient | ' + f.qualname,
+                '%s is memoised (%s) although its result depends on %s: '
+                'after a change of the working directory / file system the '
+                'same spelling maps to a stale answer (two identities for '
+                'one path, or one for two)' % (
+                    f.qualname, sorted(decs & MEMO), amb),
+                prog.loc(f, f.node), key=key)
+        else:
+            rc.ok({'memoised': f.qualname, 'pure': True}, key=key)
+    if n_memo == 0:
+        rc.ok({'memoised_functions': 0}, key='no memoised function reads '
+              'ambient state')
     # shape of the normaliser: str(abspath(fsdecode(x)))
     rets = [n for n in ast.walk(N.node) if isinstance(n, ast.Return)]
     key = 'normaliser shape'
@@ -359,7 +402,7 @@ def r7_4(ctx, rc):
         for c in calls:
             cn = ctx.H.node_of(d, c)[0]
             roles = ctx.H.expr_roles(c.func.value, d, cn)
-            a = ctx.H.subst(c.args[0], d, cn) if c.args else None
+            a = ctx.H.subst_callers(c.args[0], d, cn) if c.args else None
             if kind == 'top_file':
                 good = isinstance(a, ast.Attribute) and \
                     a.attr == 'filename' and isinstance(
